@@ -18,8 +18,8 @@ func (c *gDone) Done() <-chan struct{}        { return c.ch }
 func (c *gDone) Err() error                   { return context.Canceled }
 func (c *gDone) Value(key any) any            { return nil }
 
-// gCtx: a live context or one that is already done — the solver's choice
-func gCtx() context.Context {
+// gMaybeDoneCtx: a live context or one that is already done — the solver's choice
+func gMaybeDoneCtx() context.Context {
 	if nondetBool() {
 		c := &gDone{ch: make(chan struct{})}
 		close(c.ch)
@@ -274,7 +274,7 @@ func H_C11_Process_gateable() {
 			hit = i
 		}
 	}
-	out, err := s.w.Process(gCtx(), ev)
+	out, err := s.w.Process(gMaybeDoneCtx(), ev)
 	// --- nothing is ever composed twice, and every compose call gets exactly one group's events in arrival order
 	for i := 0; i < s.n; i++ {
 		verifAssert(s.composedCount(s.grp[i].events) <= 1, "C11.process.group-composed-at-most-once")
@@ -410,9 +410,9 @@ func H_C17_FlushAll() {
 	}
 	var err error
 	if nondetBool() {
-		err = s.w.FlushAll(gCtx())
+		err = s.w.FlushAll(gMaybeDoneCtx())
 	} else {
-		err = s.w.Close(gCtx())
+		err = s.w.Close(gMaybeDoneCtx())
 	}
 	for i := 0; i < s.n; i++ {
 		verifAssert(s.composedCount(s.grp[i].events) <= 1, "C11.flushall.group-composed-at-most-once")
